@@ -81,6 +81,13 @@ except Exception:
     pass
 with open(os.path.join(dst, 'meta.json'), 'w') as f:
     json.dump(res, f, indent=1)
+# keep the outcome of every evaluation (the first one shows what the checks caught before any strengthening)
+hp = os.path.join(dst, 'history.json')
+hist = json.load(open(hp)) if os.path.exists(hp) else []
+head = subprocess.run(['git', '-C', VERIF, 'rev-parse', '--short', 'HEAD'], stdout=subprocess.PIPE, text=True).stdout.strip()
+hist.append(dict(verif_commit=head, tier=a.tier, caught_by=res.get('caught_by', []), missed_by=res.get('missed_by', [])))
+with open(hp, 'w') as f:
+    json.dump(hist, f, indent=1)
 print('%s-%s valid=%s tests=%s demo(without/with)=%s/%s caught_by=%s missed_by=%s' % (
     a.pid, a.n, res['valid_seed'], res.get('tests_pass_with_patch'), rc0, res.get('demo_with_patch', {}).get('exit'),
     res.get('caught_by'), res.get('missed_by')))
